@@ -99,7 +99,8 @@ WRAPPERS = {
     "InFn": (["def _tv_wrap(_tv_a, _tv_b=None):"], []),
     "InAsyncFn": (["async def _tv_awrap(_tv_a):"], []),
     "InClassBody": (["class _TvWrap:"], []),
-    "InIf": (["if _tv_cond:"], []),
+    "InIf": (["if _tv_mode == 'on':"], []),
+    "InNameIf": (['if __name__ == "_tv_not_main_":'], []),
     "InFor": (["for _tv_i in _tv_xs:"], []),
     "InWhile": (["while _tv_cond():"], []),
     "InTry": (["try:"], ["except _TvErr:", "    raise"]),
